@@ -107,7 +107,9 @@ pub fn tok_matches(exp: &FTok, got: &LTok) -> Result<(), String> {
         TK::Int => match (&e.val, &got.val) {
             (Val::Int(a), Val::Int(b)) => got.kind == LK::Num && a == b,
             // integers in uninterpreted IF_DATA may be written in float notation with equal value
-            (Val::Int(a), Val::Float(b)) => got.kind == LK::Num && exp.in_ifdata && (*a as f64) == *b,
+            (Val::Int(a), Val::Float(b)) => {
+                got.kind == LK::Num && exp.in_ifdata && b.fract() == 0.0 && b.abs() < 1e38 && (*b as i128) == *a
+            }
             _ => false,
         },
         TK::Float => match (as_f64(&e.val), as_f64(&got.val)) {
